@@ -569,6 +569,15 @@ struct FeWorld : World {
                 }
                 out.events.i64(r);
                 out.probes["fe.count_only_query"]++;
+                // "the maximum number of output frames which would be generated ... including fe_end()": never less than
+                // the frames this chunk really yields if the utterance ends after it (a caller sizes its buffer by it)
+                {
+                    int64_t obtainable = frames_for((int64_t)(fed + len), S, H) - (int64_t)got.size();
+                    out.checks++;
+                    if ((int64_t)r < obtainable)
+                        bad(opi, "count_only", "count-only query for " + std::to_string(len) + " samples after " + std::to_string(fed) + " answered " + std::to_string(r) +
+                                " frames, the chunk yields " + std::to_string(obtainable) + " (with the final one) (S=" + std::to_string(S) + " H=" + std::to_string(H) + ")");
+                }
             } else if (o == "end") {
                 finish_utt(opi, (int)std::max<int64_t>(1, op.geti("cap", 1)));
                 in_utt = false;
